@@ -28,6 +28,9 @@ pub struct Call {
 
 #[derive(Clone, Debug, Serialize, Deserialize)]
 pub enum Source {
+    /// fragmented movie opened as init segment + separately opened media segment; with the flag set
+    /// the first traf of the segment names a track id the init segment does not declare
+    InitSeg(Movie, bool),
     /// a movie whose first chunk offset / a sample size of one track is patched so that some
     /// samples lie beyond the end of the file (their reads fail at the I/O level, after the seek)
     Patched(Movie, u16, bool),
@@ -43,8 +46,24 @@ pub struct Case {
     pub schedule: Vec<(u8, u16, u8, u16)>,
 }
 
+/// (bytes of the stream the schedule runs on, init segment to open it against)
+fn init_seg_of(m: &Movie, unknown_track: bool) -> (Vec<u8>, Vec<u8>) {
+    let b = build(m);
+    let mut seg = b.segment.clone();
+    if unknown_track {
+        let boxes = crate::refmp4::parse::walk_lenient(&seg);
+        let mut fields = Vec::new();
+        crate::refmp4::parse::field_map(&seg, &boxes, &mut fields);
+        if let Some(f) = fields.iter().find(|f| &f.boxtype == b"tfhd" && f.kind == crate::refmp4::parse::FieldKind::Value) {
+            crate::adv::write_field(&mut seg, f, 0x4242);
+        }
+    }
+    (seg, b.bytes[..b.init_len].to_vec())
+}
+
 fn bytes_of(src: &Source) -> Option<Vec<u8>> {
     match src {
+        Source::InitSeg(m, u) => Some(init_seg_of(m, *u).0),
         Source::Patched(m, which, offset_kind) => {
             let mut bytes = build(m).bytes;
             let boxes = crate::refmp4::parse::walk_lenient(&bytes);
@@ -76,8 +95,28 @@ fn bytes_of(src: &Source) -> Option<Vec<u8>> {
 
 type Rd = Mp4Reader<Cursor<Vec<u8>>>;
 
-fn open(bytes: &[u8]) -> Result<Rd, String> {
+fn open_plain(bytes: &[u8]) -> Result<Rd, String> {
     Mp4Reader::read_header(Cursor::new(bytes.to_vec()), bytes.len() as u64).map_err(|e| e.to_string())
+}
+
+thread_local! {
+    /// init segment of the case being executed (None: the bytes are a complete file)
+    static INIT: std::cell::RefCell<Option<Vec<u8>>> = std::cell::RefCell::new(None);
+}
+
+/// open the case's bytes the way the case says: as a file, or as a media segment against its init segment
+fn open(bytes: &[u8]) -> Result<Rd, String> {
+    let init = INIT.with(|i| i.borrow().clone());
+    match init {
+        None => open_plain(bytes),
+        Some(i) => {
+            let ir = open_plain(&i)?;
+            match guard(|| ir.read_fragment_header(Cursor::new(bytes.to_vec()), bytes.len() as u64)) {
+                Ok(r) => r.map_err(|e| e.to_string()),
+                Err(p) => Err(format!("PANIC {}", p.msg)),
+            }
+        }
+    }
 }
 
 fn exec(r: &mut Rd, c: &Call) -> Result<String, Failure> {
@@ -152,6 +191,31 @@ pub fn resolve(r: &Rd, raw: &[(u8, u16, u8, u16)]) -> Vec<Call> {
 }
 
 pub fn oracle(ctx: &mut Ctx, case: &Case) -> Check {
+    let init = if let Source::InitSeg(m, u) = &case.source { Some(init_seg_of(m, *u).1) } else { None };
+    INIT.with(|i| *i.borrow_mut() = init.clone());
+    let r = oracle_inner(ctx, case);
+    INIT.with(|i| *i.borrow_mut() = None);
+    r
+}
+
+fn oracle_inner(ctx: &mut Ctx, case: &Case) -> Check {
+    if let Source::InitSeg(..) = &case.source {
+        // opening the same (init, segment) pair several times must give the same outcome
+        let bytes = bytes_of(&case.source).unwrap_or_default();
+        let mut outcomes: Vec<String> = Vec::new();
+        for _ in 0..6 {
+            outcomes.push(match open(&bytes) {
+                Ok(r) => {
+                    let mut a: Vec<(u32, u32, usize, Vec<u64>)> = r.tracks().iter().map(|(k, t)| (*k, t.sample_count(), t.trafs.len(), t.moof_offsets.clone())).collect();
+                    a.sort();
+                    format!("ok {:?}", a)
+                }
+                Err(e) => format!("err {}", e),
+            });
+        }
+        ensure!(outcomes.iter().all(|o| *o == outcomes[0]), "c15:fragment-open-nondeterministic", "opening the same init + media segment pair 6 times gave different outcomes: {:?}", { let mut u = outcomes.clone(); u.sort(); u.dedup(); u.iter().map(|x| x.chars().take(120).collect::<String>()).collect::<Vec<_>>() });
+        ctx.count("determinism:init+segment-opened-6-times");
+    }
     let Some(bytes) = bytes_of(&case.source) else {
         ctx.count("source:muxer-rejected(outside-property)");
         return Ok(());
@@ -222,9 +286,11 @@ pub fn oracle(ctx: &mut Ctx, case: &Case) -> Check {
             h.write_u64(c.kind as u64 | (c.track as u64) << 8 | (c.id as u64) << 40);
         }
         ctx.nontrivial(h.finish());
-        ctx.sample("nontrivial", &serde_json::json!({"source": match &case.source { Source::Patched(..) => "movie with samples beyond the end of the file", Source::Movie(_) => "reference-encoded movie", Source::Mux(_) => "muxer output", Source::Canned(n) => n.as_str() }, "file_len": bytes.len(), "calls": calls.iter().take(12).collect::<Vec<_>>(), "n_calls": calls.len()}));
+        ctx.sample("nontrivial", &serde_json::json!({"source": match &case.source { Source::InitSeg(..) => "media segment against its init segment", Source::Patched(..) => "movie with samples beyond the end of the file", Source::Movie(_) => "reference-encoded movie", Source::Mux(_) => "muxer output", Source::Canned(n) => n.as_str() }, "file_len": bytes.len(), "calls": calls.iter().take(12).collect::<Vec<_>>(), "n_calls": calls.len()}));
     }
     ctx.count(match &case.source {
+        Source::InitSeg(_, false) => "source:init+segment",
+        Source::InitSeg(_, true) => "source:init+segment-with-undeclared-track-id",
         Source::Patched(..) => "source:movie-with-unreadable-samples",
         Source::Movie(m) if !m.frags.is_empty() => "source:fragmented-movie",
         Source::Movie(_) => "source:table-movie",
@@ -245,6 +311,7 @@ pub fn case_strategy(max_calls: usize) -> impl Strategy<Value = Case> {
         4 => gen::table_movie(3, 24).prop_map(Source::Movie),
         3 => (gen::table_movie(2, 10), any::<u16>(), any::<bool>()).prop_map(|(m, w, k)| Source::Patched(m, w, k)),
         3 => gen::frag_movie(3, 4, 5).prop_map(Source::Movie),
+        2 => (gen::frag_movie(3, 3, 4), prop::bool::weighted(0.4)).prop_map(|(m, u)| Source::InitSeg(m, u)),
         3 => mux::mux_history(3, 24, 0.0).prop_map(Source::Mux),
         1 => prop_oneof![Just("minimal.mp4"), Just("extended_audio_object_type.mp4"), Just("minimal_init.mp4")].prop_map(|n| Source::Canned(n.to_string())),
     ];
